@@ -93,7 +93,11 @@ def run_real(gene, sols, cov, sample="S1"):
         write_decomposition(sample, gene, cov, i + 1, s, buf)
         decomp.append(buf.getvalue().split("\n")[:-1])
     buf = io.StringIO()
-    write_vcf(sample, gene, cov, sols, buf)
+    vcf_error = None
+    try:
+        write_vcf(sample, gene, cov, sols, buf)
+    except Exception as e:
+        vcf_error = f"{type(e).__name__}: {e}"
     recs = []
     header = None
     for line in buf.getvalue().split("\n"):
@@ -106,7 +110,7 @@ def run_real(gene, sols, cov, sample="S1"):
         info = dict(x.split("=", 1) for x in f[7].split(";"))
         recs.append({"chrom": f[0], "pos": int(f[1]), "id": f[2], "ref": f[3], "alt": f[4], "effect": info.get("EFFECT"),
                      "gene": info.get("GENE"), "format": f[8], "cells": [c.split(":") for c in f[9:]]})
-    return {"decomp": decomp, "vcf": recs, "header": header}
+    return {"decomp": decomp, "vcf": recs, "header": header, "vcf_error": vcf_error}
 
 
 def wire(gene, sol_descs, sols, cov, sample="S1"):
@@ -248,6 +252,10 @@ def tie(ctx):
         if o["decomp"] != real["decomp"]:
             fam["decomposition"]["disagreements"].append({"why": f"write_decomposition text differs from the model: {real['decomp'][0][:2]} vs {o['decomp'][0][:2]}", "input": c})
         fam["vcf_records"]["cases"] += 1
+        if real.get("vcf_error"):
+            fam["vcf_records"]["disagreements"].append({"why": f"write_vcf raises {real['vcf_error']}", "input": c})
+            violations.append({"why": f"write_vcf raises {real['vcf_error']} for {len(sd)} solution(s) with {[len(x) for x in sd]} copies", "input": c, "signature": "c12:writer_raises"})
+            continue
         mv = [{"pos": v["pos"], "id": v["id"], "ref": v["ref"], "alt": v["alt"], "effect": v["effect"], "cells": [":".join(x) for x in v["cells"]]} for v in o["vcf"]]
         rv = [{"pos": v["pos"], "id": v["id"], "ref": v["ref"], "alt": v["alt"], "effect": v["effect"], "cells": [":".join(x) for x in v["cells"]]} for v in real["vcf"]]
         if mv != rv:
